@@ -5,6 +5,8 @@ import (
 	"go/ast"
 	"go/token"
 	"go/types"
+	"os"
+	"path/filepath"
 	"regexp"
 	"sort"
 	"strings"
@@ -391,4 +393,57 @@ func tplRangeIndexRule(c *an.Ctx, rule string, dirs ...string) {
 	}
 	c.Okf(rule, "templates#range-element", "%d templates: no range body replaces its element by a constant index into the ranged collection", n)
 	c.Floor(rule, n, 10, "templates parsed")
+}
+
+var reEncIf = regexp.MustCompile(`(?m)^\s*(?:\}\s*else\s+)?if\s+([^\n]*?)\s*\{\s*$`)
+var reEncCmp = regexp.MustCompile(`((?:\*\s*)?\b(?:p|payload|res|result|body|v)\b(?:\.[A-Za-z_]\w*|\.?‹[^›]*›)+)\s*(!=|==)\s*("[^"]*"|[\w.]+)`)
+
+// encoderNilGuards: an encoder writes a field of the value it encodes unless the
+// field is a nil pointer (the attribute is absent). A guard that compares the
+// field with a zero VALUE ("", 0, false) drops a legal value: the receiving side
+// then reports a required element missing or applies a default. Every `if` of
+// the encoder templates that compares a field of the encoded value must compare
+// it with nil.
+func encoderNilGuards(c *an.Ctx, rule string, files ...string) {
+	n := 0
+	for _, rel := range files {
+		b, err := os.ReadFile(filepath.Join(c.Repo, rel))
+		if err != nil {
+			c.Add(an.Obligation{Rule: rule, Construct: rel, Status: an.LOST, Detail: err.Error()})
+			continue
+		}
+		flat := flattenActions(string(b))
+		for _, m := range reEncIf.FindAllStringSubmatchIndex(flat, -1) {
+			cond := flat[m[2]:m[3]]
+			line := 1 + strings.Count(flat[:m[0]+1], "\n")
+			for _, cm := range reEncCmp.FindAllStringSubmatch(cond, -1) {
+				if !strings.Contains(cm[1], "‹") {
+					continue
+				}
+				n++
+				if cm[3] != "nil" {
+					c.Failf(rule, fmt.Sprintf("%s#if(%s)", rel, strings.TrimSpace(cond)), 0, "%s:%d: the encoder emits the field only `if %s`: a legal zero value (%s) is never sent, and the receiver sees the element as absent", rel, line, strings.TrimSpace(cond), cm[3])
+				}
+			}
+		}
+	}
+	c.Okf(rule, "encoder templates#field guards", "%d field guards in %d encoder templates all test for nil (absence), never for a zero value", n, len(files))
+	c.Floor(rule, n, 1, "field guards in the encoder templates")
+}
+
+var reAction = regexp.MustCompile(`(?s)\{\{-?\s*(.*?)\s*-?\}\}`)
+var reControl = regexp.MustCompile(`^(if|else|end|range|with|define|template|block|break|continue)\b`)
+
+// flattenActions keeps template text verbatim, drops control actions and
+// comments, and turns every output action into one ‹…› token (line structure
+// is preserved).
+func flattenActions(src string) string {
+	return reAction.ReplaceAllStringFunc(src, func(m string) string {
+		body := reAction.FindStringSubmatch(m)[1]
+		nl := strings.Repeat("\n", strings.Count(m, "\n"))
+		if reControl.MatchString(body) || strings.HasPrefix(body, "/*") {
+			return nl
+		}
+		return "‹" + strings.ReplaceAll(body, "\n", " ") + "›" + nl
+	})
 }
